@@ -42,9 +42,11 @@ def lname(variant):
 def dec_to_frac(lit):
     """decimal literal text -> (n, d) exact, reduced; both must be exactly representable doubles."""
     lit = lit.replace("_", "")
-    if not re.fullmatch(r"\d+(\.\d+)?", lit):
+    if lit.endswith("f64"):
+        lit = lit[:-3]
+    if not re.fullmatch(r"\d+(\.\d*)?([eE][-+]?\d+)?", lit):
         raise TranslateError(f"unsupported numeric literal {lit!r}")
-    fr = Fraction(lit)
+    fr = Fraction(lit if not lit.endswith(".") else lit + "0")
     n, d = fr.numerator, fr.denominator
     if n >= 2 ** 53:
         raise TranslateError(f"literal {lit} numerator not exactly representable as a double")
@@ -74,23 +76,21 @@ def convert_table(src, enum_name):
     """parse `pub fn convert(&self, value: &X, target: &Enum) -> X { use Enum as S; match (self, target) {...} }`"""
     src = strip_tests(src)
     vs = enum_variants(src, enum_name)
-    m = re.search(r"pub fn convert\(&self, value: &\w+, target: &" + enum_name + r"\) -> \w+ \{\s*"
-                  r"use " + enum_name + r" as (\w+);\s*match \(self, target\) \{(.*?)\n        \}\n    \}", src, re.S)
+    m = re.search(r"pub fn convert\(\s*&self,\s*value: &\w+,\s*target: &" + enum_name + r",?\s*\) -> \w+ \{\s*"
+                  r"use " + enum_name + r" as (\w+);\s*match \(self, target\) \{(.*?)\n\s*\}\s*\n\s*\}", src, re.S)
     if not m:
         raise TranslateError(f"{enum_name}::convert: function shape not recognised")
     alias, body = m.group(1), m.group(2)
     table = {}
-    arms = [a.strip() for a in body.split("\n") if a.strip()]
-    arm_re = re.compile(r"\(" + alias + r"::(\w+), " + alias + r"::(\w+)\) => \*value(?: ([*/]) ([\d._]+))?,")
-    for a in arms:
-        if a.startswith("//"):
-            continue
-        mm = arm_re.fullmatch(a)
-        if not mm:
-            raise TranslateError(f"{enum_name}::convert: arm not recognised: {a!r}")
+    body = re.sub(r"//[^\n]*", "", body)
+    arm_re = re.compile(r"\(\s*" + alias + r"::(\w+)\s*,\s*" + alias + r"::(\w+)\s*\)\s*=>\s*\*value(?:\s*([*/])\s*([\d._]+))?\s*,")
+    rest = arm_re.sub("", body)
+    if rest.strip():
+        raise TranslateError(f"{enum_name}::convert: arm(s) not recognised: {rest.strip()[:120]!r}")
+    for mm in arm_re.finditer(body):
         s, t, op, lit = mm.groups()
         if s not in vs or t not in vs:
-            raise TranslateError(f"{enum_name}::convert: unknown variant in arm {a!r}")
+            raise TranslateError(f"{enum_name}::convert: unknown variant in arm {mm.group(0)!r}")
         if (s, t) in table:
             raise TranslateError(f"{enum_name}::convert: duplicate arm for {(s, t)} (first match wins in Rust)")
         if op is None:
@@ -254,7 +254,7 @@ def gen_consts():
            "import Compass.Model.Num", "", "namespace Compass", ""]
     # cost floor
     s = read(os.path.join(CORE, "model/unit/internal_float.rs"))
-    m = re.search(r"pub const MIN: InternalFloat = InternalFloat\(OrderedFloat\(([\d._]+)\)\);", s)
+    m = re.search(r"pub const MIN: InternalFloat = InternalFloat\(OrderedFloat\(([\d._eE+-]+(?:f64)?)\)\);", s)
     if not m:
         raise TranslateError("InternalFloat::MIN not recognised")
     n, d = dec_to_frac(m.group(1))
